@@ -206,9 +206,10 @@ def yescrypt_params(nlog2, r, p=1, t=0, tag="$y$", flavor="j"):
 def yescrypt_param_sweep(rng, full=False):
     """settings over N, r, p, t with tiny memory cost (the loop-count arithmetic of smix depends on all four)"""
     out = []
-    for nl in (range(4, 11) if full else (4, 6, 8, 10)):
+    for nl in (range(4, 11) if full else (4, 5, 6, 7, 8, 10)):
         for r in ((1, 2, 8) if full else (1, 8)):
-            for p in ((1, 2, 3, 4, 6) if full else (1, 2, 4)):
+            # (p that does not divide N: the last lane gets a longer chunk than the others)
+            for p in ((1, 2, 3, 4, 5, 6, 7) if full or nl <= 8 else (1, 2, 4)):
                 for tt in (0, 1, 2, 3):
                     for tag in (("$y$", "$gy$") if (nl + r + p + tt) % 3 == 0 or full else ("$y$",)):
                         out.append(yescrypt_params(nl, r, p, tt, tag) + ysalt(rng, rng.choice((4, 8))))
@@ -343,6 +344,8 @@ def grammar_boundaries(m, rng):
             out += [head + S(n) for n in (0, 1, 7, 8, 9, 16, 40)] + [head + S(n) + "$" for n in (0, 1, 8, 9)] + [head + S(n) + "$$" for n in (0, 1, 8, 9)]
             for r in ("0", "1", "2", "9", "10", "65536", "01", "+1", "-1", "1x", "", " 1"):
                 out += [head + "rounds=" + r + "$" + S(8), head + "rounds=" + r + "$" + S(8) + "$", head + "rounds=" + r]
+        # the rounds= value is added to the 4096 basic rounds in 32-bit arithmetic: the top of the accepted range wraps to few rounds
+        out += ["$md5$rounds=%d$%s" % (n, S(8)) for n in (4294967295, 4294967294, 4294963200, 4294963201, 4294965000)]
         out += ["$md5", "$md5x", "$md5$$", "$md5$$$", "$md5$" + S(8) + "$x", "$md5$" + S(8) + "$$x", "$md5$" + S(8) + "$" + S(22), "$md5$" + S(3) + "-" + S(3),
                 "$md5$rounds=1$", "$md5$rounds=1$$", "$md5$rounds=1", "$md5,rounds=1," + S(4), "$md5$round=1$" + S(4)]
     elif m == "sha1crypt":
@@ -424,6 +427,12 @@ def kdf_rejected_params():
                 yparams_full(tag, "j", 6, 5, p=17) + ys, yparams_full(tag, "j", 6, 5, p=21) + ys, yparams_full(tag, "j", 4, 5, p=4) + ys,
                 yparams_full(tag, "j", 5, 5, p=8) + ys, yparams_full(tag, "j", 6, 5, p=16) + ys]
         out += [yparams_full(tag, "j", 6, 5, g=1) + ys, yparams_full(tag, "j", 6, 5, g=2) + ys, yparams_full(tag, "j", 6, 5, p=2, t=1, g=1) + ys]
+        # g in the classic and WORM flavours; flavour numbers of 48 and more (two-character numerals), among them the ones
+        # whose bits are a superset of flavour j's
+        for fl in (".", "/"):
+            out += [yparams_full(tag, fl, 6, 5, g=1) + ys, yparams_full(tag, fl, 6, 5, g=2) + ys, yparams_full(tag, fl, 6, 5, p=2, g=1) + ys]
+        for fl in ("k.", "k/", "kD", "kz", "nF", "l.", "z.", "zz", "j.", "y/"):
+            out += [tag + fl + ynum(6, 1) + ynum(5, 1) + "$" + ys]
         out += [yparams_full(tag, "j", 6, 5, nrom=10) + ys, yparams_full(tag, "j", 6, 5, p=2, t=1, g=1, nrom=12) + ys, yparams_full(tag, "j", 6, 5, t=0, nrom=3) + ys]
     for r, pp in (".....", "/...."), ("/....", "....."), (".....", "....."), ("....E", "....E"), ("zzzzz", "zzzzz"), ("....2", "....2"):
         out.append("$7$4" + r + pp + ys)
@@ -467,3 +476,24 @@ def block_boundary_settings(m, rng):
     if m in ("sha256crypt", "sha512crypt"):
         return [PREFIX[m] + "rounds=1000$" + salt(rng, 16)]
     return []
+
+
+
+def late_bad_char_settings(m, rng):
+    """long settings (around and beyond the 384-byte output size) that are clean except for ONE forbidden byte far from the
+    start -- at 382, 383, 384, 385, in the middle of the tail, at the very end: the generic character check covers the
+    whole string, however long"""
+    base = {"md5crypt": "$1$" + salt(rng, 8) + "$", "sha256crypt": "$5$" + salt(rng, 16) + "$", "sha512crypt": "$6$rounds=1000$" + salt(rng, 16) + "$",
+            "descrypt": salt(rng, 2), "bigcrypt": salt(rng, 2), "bsdicrypt": "_J9.." + salt(rng, 4), "nt": "$3$$",
+            "bcrypt": "$2b$04$" + salt(rng, 22, BF64), "sha1crypt": "$sha1$5$" + salt(rng, 8) + "$", "sunmd5": "$md5$rounds=1$" + salt(rng, 8) + "$$"}.get(m)
+    if base is None:
+        return []
+    out = []
+    for total in (386, 400, 1000, 5000):
+        for pos in (382, 383, 384, 385, total // 2 + 200 if total > 800 else 385, total - 1):
+            if pos < len(base) or pos >= total:
+                continue
+            bad = rng.choice(":;*!\\ \n\x7f\x80\xff")
+            body = base + salt(rng, total - len(base))
+            out.append(body[:pos] + bad + body[pos + 1:])
+    return out
